@@ -58,6 +58,11 @@ func c14start() *c14env {
 	c14Register()
 	log.SetDebugVisible(0)
 	log.OutputToBuf()
+	return c14startServer()
+}
+
+// c14startServer starts one TCP server whose websocket/HTTP port answers.
+func c14startServer() *c14env {
 	for try := 0; try < 4; try++ {
 		l := onet.NewTCPTest(fix.Suite)
 		l.Check = onet.CheckNone
